@@ -146,6 +146,73 @@ def run(ctx):
     ok = "derive_expression(expr, error)" in dcalls and "derive_expression(recover_expr, sexpr)" in dcalls
     r2.check(ok, f"{sm.rel}:catch.promise_catch:dataflow", f"catch does not rewire expr -> error -> recover(error) -> catch expression (found {dcalls})", sm.rel, pc.lineno)
 
+    r4 = ctx.rule("C21.4", "deserialised expressions get the same upstream links as constructed ones", floor=3)
+    base = em.cls("Expression")
+    import re as _re
+
+    def last_upstreams_assign(fn):
+        """(value expr, position index, super-call position index) of the assignment to self._upstreams in fn."""
+        val = pos = sup = None
+        for i, n in enumerate(ast.walk(fn)):
+            if isinstance(n, ast.Assign) and src(n.targets[0]) == "self._upstreams":
+                val, pos = n.value, n.lineno
+            if isinstance(n, ast.Call) and src(n.func).startswith("super().") and src(n.func).endswith(fn.name):
+                sup = n.lineno
+        return val, pos, sup
+
+    def effective(m, c, meth):
+        """The expression finally stored in self._upstreams after running c.<meth> (following super() chains)."""
+        for cm, cc in repo.mro(m, c):
+            fn = next((st for st in cc.body if isinstance(st, FuncNode) and st.name == meth), None)
+            if fn is None:
+                continue
+            val, pos, sup = last_upstreams_assign(fn)
+            if val is not None and (sup is None or pos > sup):
+                return val, fn, cc
+            if val is not None and sup is not None and pos < sup:
+                # overwritten by the base class unless the base does not assign
+                up = effective_from(repo.mro(cm, cc)[1:], meth)
+                return up if up[0] is not None else (val, fn, cc)
+            if sup is None:
+                return None, fn, cc  # does not chain: base never runs
+        return None, None, None
+
+    def effective_from(mro_tail, meth):
+        for cm, cc in mro_tail:
+            fn = next((st for st in cc.body if isinstance(st, FuncNode) and st.name == meth), None)
+            if fn is None:
+                continue
+            val, pos, sup = last_upstreams_assign(fn)
+            if val is not None:
+                return val, fn, cc
+            if sup is None:
+                return None, fn, cc
+        return None, None, None
+
+    nchk = 0
+    for m, c in [(em, base)] + list(repo.subclasses(base, strict=True)):
+        hres = repo.resolve_method(m, c, "_calc_hash")
+        if hres is None or any(isinstance(n, ast.Raise) for n in hres[2].body):
+            continue  # abstract expression class
+        iv, ifn, icls = effective(m, c, "__init__")
+        sv, sfn, scls = effective(m, c, "__setstate__")
+        if ifn is None or sfn is None or iv is None:
+            continue
+        nchk += 1
+        params = {a.arg for a in ifn.args.args[1:]}
+        want = _re.sub(r"\b(" + "|".join(sorted(params)) + r")\b", lambda mo: "self." + mo.group(1), src(iv)) if params else src(iv)
+        got = src(sv) if sv is not None else None
+        r4.check(
+            got == want,
+            f"{m.rel}:{c.name}.__setstate__[{scls.name}]:_upstreams",
+            f"a constructed {c.name} has _upstreams = {src(iv)} ({icls.name}.__init__) but a deserialised one ends with _upstreams = {got} "
+            f"({scls.name}.__setstate__): expressions replayed from the cache lose (or mislink) the dataflow edges _find_arg_upstreams follows",
+            m.rel,
+            sfn.lineno,
+        )
+    if nchk < 3:
+        raise AnalysisError(f"only {nchk} expression classes with __init__/__setstate__ upstream bookkeeping found", "Expression")
+
     r3 = ctx.rule("C21.3", "_record_args: evaluated values, positions/keys, defaults as keywords, upstreams from expression arguments", floor=5)
     ra = db.func("RedunBackendDb._record_args")
     t = src(ra)
